@@ -5,6 +5,7 @@
 #include <pubkey.h>
 #include <value.h>
 #include <vector>
+#include <inttypes.h>
 
 #include <instance.h>
 
@@ -92,6 +93,10 @@ bool Instance::parse_input_transaction(const char* txdata, int select_index) {
                 fprintf(stderr, "error: the input transaction %s is not found in any of the inputs for the provided transaction %s\n", txin_hash.ToString().c_str(), tx->GetHash().ToString().c_str());
                 return false;
             }
+        }
+        if (txin_vout_index < 0 || (size_t)txin_vout_index >= txin->vout.size()) {
+            fprintf(stderr, "error: input %" PRId64 " spends output %" PRId64 " of the input transaction, which only has %zu output(s)\n", txin_index, txin_vout_index, txin->vout.size());
+            return false;
         }
     }
     return true;
